@@ -602,3 +602,11 @@ func fnName(f *ssa.Function) string {
 	}
 	return f.Name()
 }
+
+// orPos: p unless it is not a position.
+func orPos(p, q token.Pos) token.Pos {
+	if p.IsValid() {
+		return p
+	}
+	return q
+}
